@@ -526,13 +526,14 @@ class TextXVisitor(RRELVisitor):
                 if cls._tx_type != RULE_ABSTRACT:
                     cls._tx_type = RULE_ABSTRACT
                     has_change[0] = True
-                # Add inherited classes to this rule's meta-class. This is
-                # done in each pass: with circular references the type of a
-                # referenced rule may be known only in a later pass.
-                inh_count = len(cls._tx_inh_by)
+                # Collect inherited classes of this rule's meta-class. This is
+                # done anew in each pass: with circular references the type
+                # of a referenced rule may be known only in a later pass, and
+                # what was collected while it was still taken for a match
+                # rule must not survive.
+                inh_by = []
                 if is_rule_alias:
-                    if rule._tx_class not in cls._tx_inh_by:
-                        cls._tx_inh_by.append(rule._tx_class)
+                    inh_by.append(rule._tx_class)
                 else:
                     # Recursively append all referenced classes.
                     def _add_reffered_classes(rule, inh_by, start=False):
@@ -556,8 +557,9 @@ class TextXVisitor(RRELVisitor):
                             return inh_added
                         return False
 
-                    _add_reffered_classes(rule, cls._tx_inh_by, start=True)
-                if len(cls._tx_inh_by) != inh_count:
+                    _add_reffered_classes(rule, inh_by, start=True)
+                if inh_by != cls._tx_inh_by:
+                    cls._tx_inh_by[:] = inh_by
                     has_change[0] = True
 
         # Multi-pass rule type resolving to support circular rule references.
